@@ -380,6 +380,10 @@ K('c02_v311_connect', {}, est=300, stubs=_st, mem='L',
 K('c02_v311_subscribe_family', {}, est=300, stubs=_st, mem='L',
   bounds='v3.1.1 SUBSCRIBE / SUBACK / UNSUBSCRIBE through the builders with one 1-byte entry, id all u16, QoS / return code symbolic', symbolic='2 bytes, id',
   encodes=['v3_1_1::{GenericSubscribe,GenericSuback,GenericUnsubscribe}', 'SubEntry', 'SubOpts'])
+for _k in ('suback_v311', 'unsuback_v311', 'suback_v5', 'unsuback_v5'):
+    S('st_recv_' + _k, {}, stubs=_st, est=600, mem='L',
+      bounds='%s (id r all u16) received by a connected client with one pending id u (still in use, or already released by the application) and one unrelated id' % _k.upper(), symbolic='u, w, r, still-used flag',
+      encodes=['process_recv_*_%s' % _k.split('_')[0]])
 # v5.0 codec harnesses follow the same scheme as the steps (global unwind 2 + whitelist)
 CODEC_UWS = STEP_UWS + [(r'verif_harness', 24), (r'8property', 3)]
 LONG_UWS = STEP_UWS + [(r'verif_harness', 140), (r'8property', 3), (r'mqtt_string|mqtt_binary|arc_payload', 140), (r'memcmp|compare_bytes|SlicePartialEq|5slice3cmp', 140)]
@@ -425,7 +429,7 @@ QUICK = {
     'C05': ['c09_f3_overlong_rl', 'st_recv_publish_q2_v311', 'st_recv_connect_v5_server', 'st_id_calls_total', 'st_dispatch_client_v311', 'c04_v311_connect_prefixes'],
     'C06': ['st_send_publish_v311_never_dropped', 'st_recv_puback_v311_persistent', 'st_recv_connack_v311_resume', 'st_send_pubrel_states_v311', 'st_recv_pubrec_v5_flow'],
     'C07': ['st_recv_publish_q2_v311', 'st_recv_pubrel_flow', 'st_send_pubrec_v5_handled', 'st_handled_export_restore', 'st_reuse_client_v311_clean_connect'],
-    'C08': ['c08_pidman_step_u16', 'st_id_calls_total', 'st_notify_closed_any', 'st_recv_puback_v311_persistent', 'st_send_publish_v5_flow', 'st_send_publish_v5_limit'],
+    'C08': ['c08_pidman_step_u16', 'st_id_calls_total', 'st_notify_closed_any', 'st_recv_puback_v311_persistent', 'st_send_publish_v5_flow', 'st_send_publish_v5_limit', 'st_recv_unsuback_v5', 'st_recv_suback_v311'],
     'C09': ['c09_f1_header_value', 'c09_f3_overlong_rl', 'c09_f2_s1_three_frames', 'c09_f2_s3_four_byte_len', 'c09_f2_s4_error_then_frame', 'st_recv_two_packets_one_buffer'],
     'C10': ['st_notify_closed_any', 'st_reuse_client_v311_clean_connect', 'st_recv_connect_v311_server'],
     'C11': ['c11_const_table', 'c11_cell_client_v311_subscribe', 'c11_cell_server_v5_connack', 'c11_cell_any_v5_publish_q1', 'c11_cell_client_v311_pubrel', 'c11_cell_server_v5_pubrec'],
@@ -448,7 +452,7 @@ THOROUGH_EXTRA = {
     'C06': ['st_send_publish_v5_never_dropped', 'st_send_publish_v311_q1_persistent', 'st_recv_puback_v5_flow', 'st_recv_pubcomp_flow', 'st_erase_stored_publish_v5',
             'st_send_connack_v5_resume_count', 'st_send_stored_limit_v5', 'st_notify_closed_any'],
     'C07': ['st_notify_closed_any'],
-    'C08': ['c20_step_u16_n3', 'st_recv_puback_v5_flow', 'st_recv_pubrec_v5_flow', 'st_recv_pubcomp_flow', 'st_erase_stored_publish_v5', 'st_send_publish_v311_never_dropped',
+    'C08': ['st_recv_suback_v5', 'st_recv_unsuback_v311', 'c20_step_u16_n3', 'st_recv_puback_v5_flow', 'st_recv_pubrec_v5_flow', 'st_recv_pubcomp_flow', 'st_erase_stored_publish_v5', 'st_send_publish_v311_never_dropped',
             'st_send_publish_v5_never_dropped', 'st_send_stored_limit_v5', 'st_recv_connack_v311_resume', 'st_send_connack_v5_resume_count'],
     'C09': ['c09_f2_s2_nonminimal', 'c09_f2_s5_partial_tail', 'c09_f2_s6_three_byte_len', 'st_recv_framing_error_v311', 'st_recv_framing_error_v5'],
     'C10': ['st_recv_connect_v5_server'],
